@@ -12,7 +12,7 @@ ID = "C20"
 LEVEL = "exploration"
 RULE = ("a case is (class PickledDict|DBMDict, creation via create|from_dict(d), operation history up to 30 (quick) / 50 "
         "(thorough) steps over a 6-key universe): set/get/get-default/delete (present and absent)/in/len/iteration/clear/sync/"
-        "invalid values (str,int,None,list)/mutation of the source dict after from_dict/create-over-existing/open-missing, and "
+        "invalid values (str,int,None,list,memoryview,array,float,tuple)/mutation of the source dict after from_dict/create-over-existing/open-missing, and "
         "for PickledDict close+open and use-after-close at arbitrary points (DBMDict: one open session, use-after-close once at "
         "the end). Oracle: plain dict model compared after every step. Non-trivial = history has a delete or clear after a set "
         "and (PickledDict) a reopen; distinct = distinct (class, creation, history).")
@@ -41,6 +41,15 @@ def decode_value(v):
         return None
     if t == "l":
         return [b"x"]
+    if t == "mv":
+        return memoryview(b"view")
+    if t == "arr":
+        import array
+        return array.array("b", [1, 2, 3])
+    if t == "f":
+        return 1.5
+    if t == "t":
+        return (b"a",)
     raise ValueError(t)
 
 
@@ -224,7 +233,7 @@ def run_case(case):
 # ---------------------------------------------------------------------------------------------------------
 @st.composite
 def st_value(draw):
-    t = draw(st.sampled_from(["b"] * 8 + ["ba", "s", "i", "none", "l"]))
+    t = draw(st.sampled_from(["b"] * 8 + ["ba", "ba", "s", "i", "none", "l", "mv", "arr", "f", "t"]))
     if t in ("b", "ba"):
         return [t, draw(st.one_of(st.binary(max_size=40), st.just(b""), st.just(b"\x00"))).hex()]
     if t == "s":
